@@ -23,9 +23,9 @@ from vf.llsym import bv, simp, mask, is_c
 
 FAMILIES = {
     # name: (alphabet, k_quick, k_thorough)
-    'specifiers': (['short', 'long', 'int', 'signed', 'unsigned', 'char', 'double', 'float', 'void', '_Bool', '_Complex', 'const', 'volatile'], 4, 5),
-    'declarators': (['int', '*', '(', ')', '[', ']', '3', ','], 6, 7),
-    'functions': (['int', 'void', 'char', '*', '(', ')', ',', '...', 'const', '[', ']'], 5, 6),
+    'specifiers': (['short', 'long', 'int', 'signed', 'unsigned', 'char', 'double', 'float', 'void', '_Bool', '_Complex', 'const', 'volatile'], 4, 6),
+    'declarators': (['int', '*', '(', ')', '[', ']', '3', ','], 6, 8),
+    'functions': (['int', 'void', 'char', '*', '(', ')', ',', '...', 'const', '[', ']'], 5, 7),
 }
 
 REPLAY = r'''
